@@ -20,12 +20,8 @@ def get_ram_data(rml_rule, references, python_source=None):
     source_value = python_source[source_key]
 
     if isinstance(source_value, pd.DataFrame):
-        # work on a copy, the DataFrame of the caller must not be modified
-        source_value = source_value.copy()
-        for col in source_value.select_dtypes(include=['object']).columns:
-            source_value[col] = source_value[col].apply(lambda x:
-                                                        x.replace('"', '') if isinstance(x, str)
-                                                        else x)
+        # the values are taken as they are, as for every other data source (quotes are escaped when the literals are
+        # generated); selecting the references gives a new DataFrame, the one of the caller is not modified
         return source_value[references]
     elif isinstance(source_value, list):
         return pd.DataFrame(source_value, columns=references)
